@@ -280,11 +280,33 @@ func c13(r *Report, s *Sem) {
 				calls[g.Name()] = true
 			}
 		})
-		stop := "stopListener"
-		if sl := p.Method("Client", "stopListener"); sl != nil {
-			stop = sl.Name()
+		// stopping the listener = waiting for its done signal (a receive from a channel field of Client that the listener
+		// goroutine closes), in Close itself or in a Client method it calls
+		stops := false
+		for f := range p.reachable(cc) {
+			if !typeIs(recvType(topLevel(f)), p.Type("Client")) {
+				continue
+			}
+			eachInstr(f, func(in ssa.Instruction) {
+				u, ok := in.(*ssa.UnOp)
+				if !ok || u.Op != token.ARROW {
+					return
+				}
+				fld := pathOf(u.X).Last()
+				if fld == nil {
+					return
+				}
+				if p.Field("Client", fld.Name()) != fld {
+					return
+				}
+				for _, site := range p.chanCloseSites(p.LimeFuncs()) {
+					if site.field == fld {
+						stops = true
+					}
+				}
+			})
 		}
-		r.Check(R3, "func (*Client).Close / stops the listener, then finishes or closes the channel", p.pos(cc.Pos()), calls[stop] && calls["FinishSession"] && calls["Close"], fmt.Sprintf("calls %v", sortedKeys(calls)))
+		r.Check(R3, "func (*Client).Close / stops the listener, then finishes or closes the channel", p.pos(cc.Pos()), stops && calls["FinishSession"] && calls["Close"], fmt.Sprintf("waits for the listener's done signal=%v; calls %v", stops, sortedKeys(calls)))
 	}
 
 	// terminating calls leave the channel in the terminal state whatever the send did (abstract interpretation)
